@@ -363,7 +363,7 @@ class VmWorld:
         self.install(eng)
 
     # ------------------------------------------------------------------ per-path state
-    def fresh_state(self, e, code=None, ip=None):
+    def fresh_state(self, e, code=None, ip=None, room=16):
         P = self.P
         vm_sd = P.struct_def('vm::Vm')
         self.vm_idx = {n: i for i, (n, _) in enumerate(vm_sd.fields)}
@@ -379,7 +379,7 @@ class VmWorld:
         e.assume(z3.UGE(st.fb, 1 << 17))                 # room below the frame: under-reads show up as depth, not wrap
         e.assume(z3.ULE(st.fb, st.sp))
         e.assume(z3.ULT(st.sp, 1 << 40))
-        e.assume(z3.ULE(st.sp + 16, st.cap))             # C06.K2 establishes the reservation; here: room for 16 pushes
+        e.assume(z3.ULE(st.sp + room, st.cap))           # C06.K2 establishes the reservation; here: room for 16 pushes
         st.stack = e.fresh_seq('laythe_core::value::Value', NameBacking('stack'), st.cap)
         st.stack0 = st.stack.arr
         st.code_len = z3.BitVec('code_len', 64)
